@@ -10,6 +10,7 @@ package genql
 // Pointer parameters of the functions below the API are non-nil (an obligation at every call site inside the module) unless a
 // contract says `nullable`; the API roots take whatever the caller passes.
 //@ crash-root New (*Query).Exec
+//@ recover-handlers [C10]
 //@ api-root New (*Query).Exec (*Query).IsDual ExecReader RegisterFunction RegisterImmediateFunction RegisterExternalFunction RegisterTopLevelFunction Import
 //
 // What every function handed a *Query may rely on (established by New, Prepare and CopyQuery, checked at every call site):
@@ -271,6 +272,7 @@ package genql
 
 //@ func ExecSelect
 //@   loop 0 ascending-range rows[C20,C02]: current
+//@   at-call append:append(copy, current) assert nested-untouched[C08]: typeis(current[rangeindex + 1], []any) && len(current[rangeindex + 1].([]any)) > 0 ==> appended == current[rangeindex + 1]
 
 //@ func SelectExpr
 //@   loop 0 ascending-range items[C20,C02]: expr.Exprs
